@@ -25,7 +25,7 @@ def gen_cases(seed, tier):
     for _ in range(n):
         fam = rng.choice(["birthdeath", "reversible", "netflux", "dimer", "timedep", "linear", "nonlinear", "nonlinear"])
         U = lambda a, b: round(rng.uniform(a, b), 3)
-        c = {"family": fam, "times": _grid(rng)}
+        c = {"family": fam, "times": _grid(rng), "safe": (rng.random() < 0.35 and fam != "netflux")}
         if fam == "birthdeath": c.update(k=U(0.1, 5), g=U(0.1, 3), x0=U(0, 10))
         elif fam in ("reversible", "netflux"): c.update(a=U(0.1, 3), b=U(0.1, 3), A0=U(0, 10), B0=U(0, 10))
         elif fam == "dimer": c.update(k=U(0.01, 1), A0=U(0, 8))
@@ -72,7 +72,8 @@ def impl_case(case):
     from bioscrape.simulator import py_simulate_model
     warnings.simplefilter("ignore")
     spec = _spec_of(case); M = G.build_model(spec); T = np.array(case["times"], dtype=float)
-    res = py_simulate_model(T, Model=M, stochastic=False, return_dataframe=True)
+    # the safe interface integrates the same rate equations (it only clips negative rates): S3_C04
+    res = py_simulate_model(T, Model=M, stochastic=False, return_dataframe=True, safe=bool(case.get("safe")))
     names = list(M.get_species_list())
     return {"names": names, "rows": {s: [float(v) for v in res[s]] for s in names}, "time": [float(v) for v in res["time"]]}
 
